@@ -73,5 +73,56 @@ func ShimTest(args []string) {
 	if bad > 0 {
 		core.Infra("shim conformance: %d of %d programs disagree with the real runtime", bad, len(shimprogs.Programs))
 	}
-	fmt.Printf("shim conformance ok: %d programs, %d schedules explored\n", len(shimprogs.Programs), totalExecs)
+	// race oracle: racy programs are reported in some schedule on the expected location, clean
+	// programs in none (and none of them panics: the hoisted instrumentation dereferences nothing
+	// the program would not)
+	for _, p := range shimprogs.RacePrograms {
+		reported := map[string]bool{}
+		other := ""
+		e := &vs.Explorer{Mode: vs.DelayBounded, Cfg: vs.Config{Horizon: time.Hour, MaxSteps: 20000}, MaxExec: 200000, Harness: p.F}
+		e.Check = func(ch []int, r *vs.Result) {
+			if r.Outcome != "done" {
+				other = r.Outcome
+				if r.Panic != nil {
+					other += ": " + r.Panic.Value
+				}
+			}
+			for _, rc := range r.Races {
+				reported[rc.Loc] = true
+			}
+		}
+		completed := e.RunIterative(3)
+		totalExecs += e.Execs
+		ok := other == ""
+		if p.Racy == "" {
+			ok = ok && len(reported) == 0
+		} else {
+			hit := false
+			for l := range reported {
+				if strings.HasSuffix(l, p.Racy) {
+					hit = true
+				}
+			}
+			ok = ok && hit
+		}
+		status := "ok"
+		if !ok {
+			status = "MISMATCH"
+			bad++
+		}
+		fmt.Printf("%-8s race oracle: %-70s bound %d, %5d schedules: expected {%s} reported %v %s\n", status, p.Name, completed, e.Execs, p.Racy, keysOf(reported), other)
+	}
+	if bad > 0 {
+		core.Infra("race oracle conformance: %d programs disagree", bad)
+	}
+	fmt.Printf("shim conformance ok: %d programs + %d race-oracle programs, %d schedules explored\n", len(shimprogs.Programs), len(shimprogs.RacePrograms), totalExecs)
+}
+
+func keysOf(m map[string]bool) []string {
+	var out []string
+	for k := range m {
+		out = append(out, k)
+	}
+	sort.Strings(out)
+	return out
 }
